@@ -4,11 +4,13 @@
 //!                       [--out result.json] [--journal file] [--scale X] [--replay file]
 //! cmd: selftest | merge-hashes <files..> | C01 .. C14
 
+mod engmon;
 mod fenmon;
 mod itermon;
 mod posmon;
 mod real;
 mod report;
+mod scoremon;
 mod workload;
 
 use posmon::{Oracle, Plan};
@@ -241,6 +243,37 @@ fn main() {
                 for _ in 0..n / 20 {
                     fenmon::builder_fuzz(&mut c, &mut rng, None);
                 }
+            }
+            finish(&c, &a, J::Null);
+        }
+        "C14" => {
+            let mut c = Collector::new(&a.cmd, a.journal.as_deref());
+            if let Some(rp) = &a.replay {
+                let text = std::fs::read_to_string(rp).expect("read replay file");
+                let j = J::parse(&text).expect("parse replay file");
+                let r = j.get("replay").cloned().unwrap_or(J::Null);
+                std::process::exit(scoremon::replay(&mut c, &r));
+            }
+            scoremon::c14(&mut c, a.seed, a.shard, a.nshards, a.tier == "thorough");
+            finish(&c, &a, J::Null);
+        }
+        "C11" | "C12" | "C13" => {
+            let mut c = Collector::new(&a.cmd, a.journal.as_deref());
+            if let Some(rp) = &a.replay {
+                let text = std::fs::read_to_string(rp).expect("read replay file");
+                let j = J::parse(&text).expect("parse replay file");
+                let r = j.get("replay").cloned().unwrap_or(J::Null);
+                std::process::exit(engmon::replay(&mut c, &a.cmd, &r));
+            }
+            if let Err(e) = refmodel::self_test(false) {
+                println!("INCONCLUSIVE: reference model self-test failed: {e}");
+                std::process::exit(3);
+            }
+            let th = a.tier == "thorough";
+            match a.cmd.as_str() {
+                "C11" => engmon::c11(&mut c, a.seed, a.shard, a.nshards, th, a.scale),
+                "C12" => engmon::c12(&mut c, a.seed, a.shard, a.nshards, th, a.scale),
+                _ => engmon::c13(&mut c, a.seed, a.shard, a.nshards, th, a.scale),
             }
             finish(&c, &a, J::Null);
         }
